@@ -402,6 +402,42 @@ def impl_main(payload):
         cases.append(dict(kind=2, text=s, floats=table))
         exp.append(enc)
     spm.float = float
+    # ---- (f) the sympy-compatible model string of the SRBench interface: with the data frame's column names substituted it must
+    # denote the function the equation computes, for any number of features (X_1 is a prefix of X_10 ... X_19)
+    try:
+        from bingo.symbolic_regression import srbench_interface as srb
+        from bingo.symbolic_regression.equation_regressor import EquationRegressor
+        stats["srbench_models"] = 0
+        rs2 = np.random.RandomState(payload["seed"] % (2 ** 31))
+
+        class Frame:
+            def __init__(self, columns):
+                self.columns = columns
+        for eq_text, ncol in (("2.5*X_0*X_0 - sin(X_1)/X_2", 3), ("2.5*X_10*X_10 - sin(X_1)/X_11 + 0.5*X_3", 12),
+                              ("X_1*X_12 + X_2*X_21 - X_20/X_0 + X_22", 23), ("X_10 + X_11*X_1 - X_19*X_9", 20)):
+            for names in (["col%s" % chr(97 + i) for i in range(ncol)],
+                          ["len", "len0", "len1", "len2"] + ["v%sq" % chr(97 + i) for i in range(ncol - 4)] if ncol >= 4 else ["u", "v", "w"]):
+                data = rs2.uniform(0.5, 2.0, size=(7, ncol))
+                est = EquationRegressor(AGraph(equation=eq_text))
+                want = np.asarray(est.predict(data), dtype=float).ravel()
+                text = srb.model(est, Frame(list(names)))
+                syms = {c: sp.Symbol(c) for c in names}
+                stats["srbench_models"] += 1
+                try:
+                    expr = sp.sympify(text, locals=syms)
+                except Exception as e:  # noqa
+                    viol.append("srbench model string %r of %r does not parse as sympy: %r" % (text, eq_text, e))
+                    continue
+                strangers = sorted(str(v) for v in expr.free_symbols if str(v) not in names)
+                if strangers:
+                    viol.append("srbench model string %r of %r (columns %r) names %r, which are not columns" % (text, eq_text, names, strangers))
+                    continue
+                f = sp.lambdify([syms[c] for c in names], expr, "numpy")
+                got = np.broadcast_to(np.asarray(f(*data.T), dtype=float), want.shape)
+                if not np.allclose(got, want, rtol=1e-10, atol=0.0):
+                    viol.append("srbench model string %r (columns %r) does not compute %r: %r vs %r" % (text, names, eq_text, got.tolist(), want.tolist()))
+    except ImportError:
+        pass
     return dict(cases=cases, exp=exp, viol=viol, stats=stats, f3=bool(f3), f3_seen=f3_seen)
 
 
